@@ -203,6 +203,13 @@ mod dictionary {
                 self.bytes += 1;
                 output.push([*b].as_slice())
             } else {
+                // A literal whose first byte is a dictionary tag would decode as the dictionary entry.
+                assert!(
+                    bytes
+                        .first()
+                        .map_or(true, |tag| self.decode.get((*tag).into()).is_none()),
+                    "input starts with a dictionary tag and cannot be represented"
+                );
                 self.bytes += bytes.len();
                 output.push(bytes)
             };
